@@ -1,5 +1,7 @@
 import SlipVerif.Model.Totality
+import SlipVerif.Model.ReaderStack
 import SlipVerif.Gen.C09Reader
+import SlipVerif.Gen.C09Sharp
 import SlipVerif.Gen.C09Format
 import SlipVerif.Driver.Util
 --! namespace: tot
@@ -10,6 +12,13 @@ import SlipVerif.Driver.Util
      tot group <digits> <commaint> <hex comma>  -> ok <hex expanded text>
      tot tables                        -> ok reader=<ReaderOK> format=<FormatOK>
      tot blocksize                     -> ok <readBlockSize of code.go>
+     tot stack <ops>                   -> ok forms <n> | ok partial <depth> | ok raise unmatched|comma <op index> | err fault <op index>
+                                          ops: ( list  [ vector  ) close  ' quote  F #'  ` backquote  , comma  @ comma-at
+                                               v value (string, character …)  n token t/nil  a other token
+     tot sharp <decimal digits> A|R    -> ok plain | ok raise | ok alloc <n> | ok radix <b> | err fault
+     tot cursor <len> <ops>            -> ok done <indices joined by .|-> <pos> | ok raise <op index> | err fault <op index>
+                                          ops (comma separated): a next argument, s<n> ~n*, b<n> ~n:*, g<n> ~n@*  (n a decimal integer)
+     tot sharpconsts                   -> ok <SharpOK> guard=<n> maxRank=<n> radix=<lo>..<hi>
    The tables are the ones regenerated from the sources (Gen/C09Reader, Gen/C09Format). -/
 namespace SlipVerif.Driver.Totality
 open SlipVerif.Totality SlipVerif.Driver
@@ -32,6 +41,58 @@ def formatTables : FormatTables :=
     stepBack := SlipVerif.Gen.C09Format.stepBack
     quotes := SlipVerif.Gen.C09Format.quotes
     defaultRaises := SlipVerif.Gen.C09Format.defaultRaises }
+
+def sharpConsts : SlipVerif.ReaderStack.SharpConsts :=
+  { maxInt := SlipVerif.Gen.C09Sharp.maxInt
+    guard := SlipVerif.Gen.C09Sharp.guard
+    maxRank := SlipVerif.Gen.C09Sharp.maxRank
+    radixLo := SlipVerif.Gen.C09Sharp.radixLo
+    radixHi := SlipVerif.Gen.C09Sharp.radixHi }
+
+def opOfChar? : Char → Option SlipVerif.ReaderStack.Op
+  | '(' => some .openList
+  | '[' => some .openVec
+  | ')' => some .close
+  | '\'' => some (.mark .quote)
+  | 'F' => some (.mark .sharpQuote)
+  | '`' => some (.mark .backquote)
+  | ',' => some .comma
+  | '@' => some .commaAt
+  | 'v' => some .value
+  | 'n' => some .tokenTN
+  | 'a' => some .token
+  | _ => none
+
+def opsOf? : List Char → Option (List SlipVerif.ReaderStack.Op)
+  | [] => some []
+  | c :: cs =>
+    match opOfChar? c, opsOf? cs with
+    | some o, some os => some (o :: os)
+    | _, _ => none
+
+def digitsOf? : List Char → Option (List Nat)
+  | [] => some []
+  | c :: cs =>
+    if '0' ≤ c ∧ c ≤ '9' then (digitsOf? cs).map (fun ds => (c.toNat - 48) :: ds) else none
+
+def cursorGuards : SlipVerif.ReaderStack.CursorGuards :=
+  { checksLow := SlipVerif.Gen.C09Format.argIndexLowChecked == SlipVerif.Gen.C09Format.argIndexSites
+    checksHigh := SlipVerif.Gen.C09Format.argIndexHighChecked == SlipVerif.Gen.C09Format.argIndexSites }
+
+def curOpOf? (t : String) : Option SlipVerif.ReaderStack.CurOp :=
+  if t = "a" then some .next
+  else match t.toList with
+    | 's' :: r => (String.ofList r).toInt?.map (fun n => .move false false n)
+    | 'b' :: r => (String.ofList r).toInt?.map (fun n => .move true false n)
+    | 'g' :: r => (String.ofList r).toInt?.map (fun n => .move false true n)
+    | _ => none
+
+def curOpsOf? : List String → Option (List SlipVerif.ReaderStack.CurOp)
+  | [] => some []
+  | t :: ts =>
+    match curOpOf? t, curOpsOf? ts with
+    | some o, some os => some (o :: os)
+    | _, _ => none
 
 def afterTilde : List Nat → Option (List Nat)
   | [] => none
@@ -72,6 +133,39 @@ def handle (entry : String) (args : List String) : String :=
       if c = 0 ∨ out.length < 1 + signLen then "bad-request group"
       else "ok " ++ hexString (String.ofList (groupText out signLen c comma.toList))
     | _, _ => "bad-request group"
+  | "stack", [ops] =>
+    match opsOf? (if ops = "-" then [] else ops.toList) with
+    | none => "bad-request ops"
+    | some os =>
+      match SlipVerif.ReaderStack.run os with
+      | .forms n => s!"ok forms {n}"
+      | .partialDepth d => s!"ok partial {d}"
+      | .raise .unmatched i => s!"ok raise unmatched {i}"
+      | .raise .commaOutside i => s!"ok raise comma {i}"
+      | .fault i => s!"err fault {i}"
+  | "sharp", [digits, kind] =>
+    match digitsOf? digits.toList, kind with
+    | some ds, "A" | some ds, "R" =>
+      if ds.isEmpty then "bad-request digits"
+      else match SlipVerif.ReaderStack.sharpDispatch sharpConsts ds (kind == "A") with
+        | .plain => "ok plain"
+        | .raise => "ok raise"
+        | .alloc n => s!"ok alloc {n}"
+        | .radix b => s!"ok radix {b}"
+        | .fault => "err fault"
+    | _, _ => "bad-request sharp"
+  | "cursor", [len, ops] =>
+    match len.toNat?, curOpsOf? (ops.splitOn ",") with
+    | some n, some os =>
+      match SlipVerif.ReaderStack.runCursor cursorGuards n 0 0 [] os with
+      | .done taken pos =>
+        let t := if taken.isEmpty then "-" else ".".intercalate (taken.map toString)
+        s!"ok done {t} {pos}"
+      | .raise i => s!"ok raise {i}"
+      | .fault i => s!"err fault {i}"
+    | _, _ => "bad-request cursor"
+  | "sharpconsts", [] =>
+    s!"ok {SlipVerif.ReaderStack.SharpOK sharpConsts} guard={sharpConsts.guard} maxRank={sharpConsts.maxRank} radix={sharpConsts.radixLo}..{sharpConsts.radixHi}"
   | "blocksize", [] => s!"ok {SlipVerif.Gen.C09Reader.readBlockSize}"
   | "tables", [] => s!"ok reader={ReaderOK readerTables} format={FormatOK formatTables}"
   | _, _ => "bad-request entry"
